@@ -25,6 +25,8 @@ def mapFn : String → Option (Val → Val)
       | .pair k (.pair (.int a) (.int b)) => .pair k (.int (a * 100 + b)) | v => v
   | "idx" => some fun v => match v with      -- (usize, x) -> (x, idx)
       | .pair i x => .pair x i | v => v
+  | "kidx" => some fun v => match v with     -- keyed (k, (idx, v)) -> (k, v * 100 + idx)
+      | .pair k (.pair (.int i) (.int x)) => .pair k (.int (x * 100 + i)) | v => v
   | _ => none
 
 def predFn : String → Option (Val → Bool)
@@ -68,7 +70,12 @@ def reduceFn : String → Option (Val → Val → Val)
   | "rmin" => some fun a x => match a, x with | .int a, .int x => .int (if x < a then x else a) | a, _ => a
   | "rlast" => some fun _ x => x
   | "rpoly" => some fun a x => match a, x with | .int a, .int x => .int (a * 3 + x) | a, _ => a
+  | "rsumc" => some fun a x => match a, x with | .int a, .int x => .int (a + x) | a, _ => a
+  | "rmaxc" => some fun a x => match a, x with | .int a, .int x => .int (if x > a then x else a) | a, _ => a
   | _ => none
+
+/-- reduce closures that come with a commutativity proof -/
+def reduceComm (code : String) : Bool := code == "rsumc" || code == "rmaxc"
 
 def parseInts (s : String) : Option (List Val) :=
   if s == "-" then some [] else (s.splitOn ",").mapM (fun p => p.toInt?.map Val.int)
@@ -114,7 +121,24 @@ def parseTerm : Nat → List String → Option (Term × List String)
     | "join" => bin .join
     | "fold" => un fun t => (foldFn arg).map (fun a => .fold a.1 a.2.1 a.2.2 t)
     | "reduce" => un fun t => (reduceFn arg).map (fun f => .reduce f t)
-    | "kfold" => un fun t => (foldFn arg).map (fun a => .kfold a.2.1 a.2.2 t)
+    | "kfold" => un fun t =>
+        match foldFn arg with
+        | some a =>
+          -- a keyed stream with NoOrder values needs the commutativity proof
+          if t.kind = some .sN then (if a.1 then some (.kfoldN a.2.1 a.2.2 t) else none)
+          else some (.kfold a.2.1 a.2.2 t)
+        | none => none
+    | "kreduce" => un fun t =>
+        match reduceFn arg with
+        | some f =>
+          if t.kind = some .sN then (if reduceComm arg then some (.kreduceN f t) else none)
+          else some (.kreduce f t)
+        | none => none
+    | "klimit" => un fun t => arg.toNat?.map (fun n => .kgen (.int 0) (limitGen n) t)
+    | "kenum" => un fun t => some (.kgen (.int 0) enumGen t)
+    | "kfirst" => un fun t => some (.entries (.kgen (.int 0) firstGen t))
+    | "kunion" => bin .union
+    | "joinlb" => bin .joinLB
     | "foldb" => un fun t => (foldFn arg).map (fun a => .foldB a.2.1 a.2.2 t)
     | "xsing" => bin .crossSingleton
     | "reduceb" => un fun t => (reduceFn arg).map (fun f => .reduceB f t)
@@ -179,26 +203,58 @@ def parseTTerm : Nat → List String → Option (TTerm × Bool × List String)
     | "across" => un fun t => (foldFn arg).map (fun a => .acrossFold a.2.1 a.2.2 t)
     | _ => none
 
+/-- is the Rust value of the term a `KeyedStream` with `NoOrder` values (`merge_unordered` of keyed streams,
+    possibly under keyed `map` / `filter`)?  Only used to print the corpus' kind tag `sKN`; the model treats
+    such a stream as the unordered stream of its entries (kind `sN`). -/
+def keyedNoOrder : List String → Bool
+  | [] => false
+  | w :: rest =>
+    let op := (splitTok w).1
+    if op == "kunion" then true
+    else if op == "map" || op == "filter" then keyedNoOrder rest
+    else false
+
+/-- finding F282: what the hydro_lang API *claims* for `bounded.join(unbounded)` and what is built on it —
+    a top-level Bounded NoOrder stream (`bN`), and `fold` of it a bounded singleton.  Only used by the driver to
+    name / canonicalise the outputs of the witness programs the way the harness does; `Term.kind` does not
+    accept the claim. -/
+def claimedBounded : List String → Option (String × Kind)
+  | [] => none
+  | w :: rest =>
+    let op := (splitTok w).1
+    if op == "joinlb" then some ("bN", .sN)
+    else if op == "map" || op == "filter" then
+      match claimedBounded rest with
+      | some ("bN", k) => some ("bN", k)
+      | _ => none
+    else if op == "foldb" then
+      match claimedBounded rest with
+      | some ("bN", _) => some ("bsing", .bsing)
+      | _ => none
+    else none
+
 def reprKind : Kind → String
   | .sT => "sT" | .sK => "sK" | .sN => "sN" | .bT => "bT"
   | .sing => "sing" | .opt => "opt" | .ksing => "ksing" | .bsing => "bsing"
 
 /-- a program the driver can run: a top-level term (C28/C29) or a tick program (C30) -/
 inductive Prog where
-  | top (t : Term)
+  | top (t : Term) (keyedN : Bool := false) (claimed : Option (String × Kind) := none)
   | tick (p : TProg) (unordered : Bool)
 
 /-- kind used for canonicalising the printed output -/
 def Prog.kind : Prog → Option Kind
-  | .top t => t.kind
+  | .top t _ (some c) => some c.2
+  | .top t _ none => t.kind
   | .tick _ u => some (if u then .sN else .sT)
 
 def Prog.kindName : Prog → Option String
-  | .top t => t.kind.map reprKind
+  | .top _ _ (some c) => some c.1
+  | .top t kn none => t.kind.map (fun k => if kn && k == .sN then "sKN" else reprKind k)
   | .tick _ u => some (if u then "tN" else "tT")
 
 def Prog.run : Prog → List TickIn → List Batch
-  | .top t, ins => HvHydro.run t ins
+  | .top t _ _, ins => HvHydro.run t ins
   | .tick p _, ins => p.run ins
 
 def parseProg (ws : List String) : Option Prog :=
@@ -216,7 +272,7 @@ def parseProg (ws : List String) : Option Prog :=
     | none => none
   | _ =>
     match parseTerm (ws.length + 1) ws with
-    | some (t, []) => some (.top t)
+    | some (t, []) => some (.top t (keyedNoOrder ws) (claimedBounded ws))
     | _ => none
 
 end HvHydro
